@@ -989,6 +989,36 @@ func c17_7(c *core.Ctx, p *core.Prog) {
 		c.Check(!skip, key, p.Pos(top.Pos()), core.FuncName(e), "every path through the entry point traverses the resources",
 			"the entry point can return without traversing the resources of its argument (an early 'nothing to obfuscate' return): resource and scope attributes of a batch without records go out in clear text, and one instance maps the same string to its substitute in one call and to itself in the next")
 	}
+	// the rewriters are unconditional too: a function that rebuilds a container it was given and writes the
+	// rebuilt copy back (cpy.CopyTo(param)) does so on every path to a return — an early return (cancelled
+	// context, "nothing listed", …) forwards the original strings with a nil error
+	for _, fn := range obfFuncs(c, p) {
+		if core.IsCanaryPath(core.FnPkgPath(fn)) || fn.Parent() != nil {
+			continue
+		}
+		for _, pr := range fn.Params {
+			if !isPdataType(pr.Type()) || (core.TypeName(pr.Type()) != "Map" && core.TypeName(pr.Type()) != "Slice") {
+				continue
+			}
+			var wb *ssa.Call
+			core.EachInstr(fn, func(i ssa.Instruction) {
+				cl, ok := i.(*ssa.Call)
+				if !ok {
+					return
+				}
+				if f := pdataCallee(cl); f != nil && f.Name() == "CopyTo" && len(cl.Call.Args) == 2 && core.Canon(cl.Call.Args[1]) == ssa.Value(pr) {
+					wb = cl
+				}
+			})
+			if wb == nil {
+				continue
+			}
+			key := "rewriter|" + core.FuncName(fn)
+			skip, _ := (core.PathQuery{Fn: fn, Avoid: func(i ssa.Instruction) bool { return i == ssa.Instruction(wb) }, ExitReturnOnly: true}).Exists()
+			c.Check(!skip, key, p.Pos(wb.Pos()), core.FuncName(fn), "every path through the rewriter writes the rebuilt container back",
+				"the rewriter can return without rebuilding the container it was given (an early return in front of the rewrite): the original strings are forwarded unobfuscated, with no error, and the same instance maps one string to its substitute in one call and to itself in another")
+		}
+	}
 	// every X.At(i) in the package: i ranges over [0, X.Len())
 	n := 0
 	for _, fn := range obfFuncs(c, p) {
